@@ -29,6 +29,9 @@ CLAIMED["C10"] = ("The staking/binding history records (keyGameHistory, keyUnmin
 CLAIMED["C18"] = ("Store steps (SetSyncedTo, ResetSyncedTo, PutWalletStatus, MarkDeleteWallet, withdrawGame, RemoveUnspentByWalletId, putRawUnminedInput, ScriptAddressBalance) run symbolically inside the real db.Update with the index of the failing database call as a symbolic integer (none, or the 1st..8th fallible call: begin, get, prefix scan, iterator, commit). z3 decides that whenever the fault occurred the operation returned an error, and that a failed update left every bucket byte-identical.",
          "Trusted: z3, go/ssa, the model database's fault model (put/delete cannot fail inside a write transaction, as in the LevelDB driver; a failed commit writes nothing). Not covered yet: block/reorg processing, keystore cache repair (RemoveCachedKeystore), worker retries, faults inside LevelDB (DESIGN 5/C18 T1a driver half, T2).", "5/C18")
 
+CLAIMED["C19"] = ("Run-time panics (index, slice bounds, nil dereference, failed type assertion, division by zero, explicit panic) are implicit assertions of the symbolic executor, so every harness of every property is also a no-crash check on the code it executes. Dedicated harnesses drive the client-facing input resolution of transaction creation and signing (WalletManager.constructTxIn, signWitnessTx) with an arbitrary client vout and a previous transaction known as mined, only as pending, or unknown (look-ups cut to their contracts), and the API-side script reader (extractAddressInfos, C16 harnesses) and the amount parser (C15 harnesses) on arbitrary bytes. z3 decides that no input inside the bounds reaches a panic.",
+         "Trusted: z3, go/ssa, the stated contracts of the cut look-ups (existsMsgTx success implies an output at the index and a block; existsUnminedTx success implies neither). Not covered: the generated gRPC layer, handlers not listed, chain-event paths (filterTx, asyncImport), silent stalls (see C20).", "5/C19")
+
 CLAIMED["C20"] = ("The synchronisation skeleton of the block follower (handle), the background worker (worker, asyncImport, asyncRemove, suspend, resume, PushImport/PushRemove) and WalletManager.Stop/NtfnsHandler.Stop/CloseDB is extracted from the go/ssa form of the current source (select, send, receive, close, WaitGroup operations, deferred calls, constant boolean results of skeleton callees; every other branch nondeterministic), channel capacities are read from the constructors, and the product of the goroutine automata with an environment (2 blocks, 2 queued tasks, one Stop) is unrolled into one bit-vector SMT query over scheduler choices. z3 decides that within the bound there is no state after Stop in which a goroutine of the wait group has not finished and no transition is enabled, and that no wait-group counter goes negative. A deadlock trace is confirmed natively (real handle and suspend/resume on real channels) before it is reported.",
          "Trusted: z3 4.8.12, go/ssa, the extraction (printed in the evidence, one line per skeleton edge with source position). Assumes calls without synchronisation operations terminate; database/keystore mutexes are not modelled; Start has run. Bound: 24 scheduler steps (36 thorough). Liveness under fairness and the p2p side that fills the queues are outside the claim.", "2.6, 5/C20")
 
